@@ -251,3 +251,94 @@ if __name__ == "__main__":
     import sys
     for line in open(sys.argv[1]):
         print(render(json.loads(line)))
+
+
+# ---------------------------------------------------------------- AST (serde JSON of ast::File) -> description
+def ast_to_desc(ast, name=""):
+    """structural mapping of the parser's output onto the description schema (data, no semantics)"""
+    def cons_of(c):
+        if c.get("tag_id") is not None:
+            return dict(id=c["id"], v=[], tag=c["tag_id"])
+        return dict(id=c["id"], v=limbs(c["value"]), tag="")
+
+    def tag_of(t):
+        if "range" in t:
+            return trange(t["id"], t["range"]["start"], t["range"]["end"], [tag(x["id"], x["value"]) for x in t["tags"]])
+        if "value" in t:
+            return tag(t["id"], t["value"])
+        return tother(t["id"])
+
+    def mod_of(m):
+        return -1 if m is None else int(m.lstrip("+"))
+
+    def field_of(f):
+        k = f["kind"]
+        if k == "scalar_field":
+            r = scalar(f["id"], f["width"])
+        elif k == "reserved_field":
+            r = reserved(f["width"])
+        elif k == "fixed_field" and "enum_id" in f:
+            r = fixedenum(f["tag_id"], f["enum_id"])
+        elif k == "fixed_field":
+            r = fixed(f["value"], f["width"])
+        elif k == "size_field":
+            r = size(f["field_id"], f["width"])
+        elif k == "count_field":
+            r = count(f["field_id"], f["width"])
+        elif k == "elementsize_field":
+            r = elementsize(f["field_id"], f["width"])
+        elif k == "payload_field":
+            r = payload(mod_of(f.get("size_modifier")))
+        elif k == "body_field":
+            r = body()
+        elif k == "array_field":
+            el = f["type_id"] if f.get("type_id") is not None else f["width"]
+            r = array(f["id"], el, count=-1 if f.get("size") is None else f["size"], mod=mod_of(f.get("size_modifier")))
+        elif k == "typedef_field":
+            r = typedef(f["id"], f["type_id"])
+        elif k == "padding_field":
+            r = padding(f["size"])
+        elif k == "group_field":
+            r = group(f["group_id"], [cons_of(c) for c in f["constraints"]])
+        elif k == "checksum_field":
+            r = checksum_start(f["field_id"])
+        elif k == "flag_field":
+            r = scalar(f["id"], 1)
+        else:
+            raise ValueError(k)
+        c = f.get("cond")
+        if c is not None:
+            r["cond"] = c["id"]
+            if c.get("tag_id") is not None:
+                r["condtag"] = c["tag_id"]
+            else:
+                r["condv"] = c["value"]
+        return r
+
+    decls = []
+    for x in ast["declarations"]:
+        k = x["kind"]
+        if k == "enum_declaration":
+            decls.append(enum(x["id"], x["width"], [tag_of(t) for t in x["tags"]]))
+        elif k in ("packet_declaration", "struct_declaration"):
+            mk = packet if k.startswith("packet") else struct
+            decls.append(mk(x["id"], [field_of(f) for f in x["fields"]], parent=x.get("parent_id") or "",
+                            cons=[cons_of(c) for c in x["constraints"]]))
+        elif k == "group_declaration":
+            decls.append(groupdecl(x["id"], [field_of(f) for f in x["fields"]]))
+        elif k == "custom_field_declaration":
+            decls.append(custom(x["id"], x.get("width"), x["function"]))
+        elif k == "checksum_declaration":
+            decls.append(checksum(x["id"], x["width"], x["function"]))
+        elif k == "test_declaration":
+            decls.append(_decl("test", x["type_id"]))
+    e = ast["endianness"]["value"]
+    return desc("little" if e == "little_endian" else "big", decls, name=name)
+
+
+def same_desc(a, b):
+    x = json.loads(json.dumps(a))
+    y = json.loads(json.dumps(b))
+    x.pop("name", None)
+    y.pop("name", None)
+    return json.dumps(x, sort_keys=True) == json.dumps(y, sort_keys=True)
